@@ -595,10 +595,26 @@ let run_hist toks =
       | _ -> failwith ("bad history item " ^ t)) toks in
   if Lin.lin_check h then "lin=1" else "lin=0"
 
+(* pins [k=v ...] p<s>,<n> u<s>,<n> w<s>,<n> ... -> ok | hit@<index> *)
+let run_pins toks =
+  let evs = Stdlib.List.filter_map (fun t ->
+      if Stdlib.String.contains t '=' then None else
+        let body = Stdlib.String.sub t 1 (Stdlib.String.length t - 1) in
+        match Stdlib.String.split_on_char ',' body with
+        | [s; n] ->
+          let s = n_of_string s and n = n_of_string n in
+          Some (match t.[0] with
+              | 'p' -> Extent.EPin (s, n) | 'u' -> Extent.EUnpin (s, n) | 'w' -> Extent.EWrite (s, n)
+              | _ -> failwith ("bad pin event " ^ t))
+        | _ -> failwith ("bad pin event " ^ t)) toks in
+  match Extent.emon [] evs N0 with
+  | None -> "ok"
+  | Some i -> "hit@" ^ string_of_n i
+
 let run_note _ = "note"
 
 let handlers : (string * (string list -> string)) list ref =
-  ref [ ("fs", run_fs); ("open", run_open); ("note", run_note); ("codec", run_codec); ("readdev", run_readdev); ("lww", run_lww); ("monitor", run_monitor); ("cache", run_cache); ("migrate", run_migrate); ("conc", run_conc); ("hist", run_hist) ]
+  ref [ ("fs", run_fs); ("open", run_open); ("note", run_note); ("codec", run_codec); ("readdev", run_readdev); ("lww", run_lww); ("monitor", run_monitor); ("cache", run_cache); ("migrate", run_migrate); ("conc", run_conc); ("hist", run_hist); ("pins", run_pins) ]
 
 
 let () =
